@@ -20,7 +20,7 @@ def c04_suites(tier):
 
 
 def c05_suites(tier):
-    return [gens.MethodRowsSuite(with_calls=True, with_reset=True), gens.GenHistorySuite()]
+    return [gens.MethodRowsSuite(with_calls=True, with_reset=True), gens.GenHistorySuite(), system.SecondTouchSuite()]
 
 
 def c06_suites(tier):
